@@ -275,10 +275,10 @@ func TestC10(t *testing.T) {
 				for _, commitDelay := range []time.Duration{0, c10D} {
 					for _, stream := range []bool{false, true} {
 						idx++
-						if !cfg.Mine(idx) {
+						seed := cfg.CaseSeed("C10", si*1000+v)
+						if !cfg.Want(idx, seed) {
 							continue
 						}
-						seed := cfg.CaseSeed("C10", si*1000+v)
 						rig.SetWatchdogContext(fmt.Sprintf("C10 %s v=%d k=%d", sc.name, v, k))
 						rig.RunCase(t, seed, rig.Opts{}, func(e *rig.Env) {
 							w := sc.setup(e, v)
